@@ -2138,6 +2138,13 @@ def run_c03_loops(ctx, RID="C03-f", soft=False):
         # without a guard the value for the empty set is the empty sum over the components of the empty set (the components routine is
         # abstracted: that the empty set has no component is part of what it is assumed to compute)
         no_guard = not ers
+        # the guard written as an expression: `if S.is_empty() { 0 } else { Σ… }`
+        ts_ = got.simplified().terms
+        if no_guard and len(ts_) == 1 and ts_[0].coeff == 1 and not ts_[0].binders and not ts_[0].guards and len(ts_[0].atoms) == 1 and ts_[0].atoms[0][1] == 1:
+            a_ = ts_[0].atoms[0][0]
+            if a_[0] == "ite" and len(a_) == 4 and a_[1] == "empty(S)" and a_[2] == Expr.zero():
+                got = a_[3]
+                ok_empty = True
         ctx.ob(RID, "the empty set has loop number 0 (%s)" % ("explicit guard" if ok_empty else "empty sum over components(∅)"), ok_empty or no_guard, fn, "loops-empty",
                detail="early returns %s" % [c for c, _ in ers])
         j = fresh("j")
